@@ -539,6 +539,283 @@ pub fn mp4_sized(r: &mut Rng, free_len: usize, extra_payload: usize, force_large
     (v, mdats)
 }
 
+/// BMFF with every kind of absolute file offset the SDK has to fix up when it inserts or removes
+/// its uuid box: stco or co64 chunk offsets, saio (v0/v1), a top-level meta with iloc (versions
+/// 0-2, offset sizes 4/8, base offset sizes 0/4/8, base-plus-extent or extent-only addressing),
+/// movie fragments with tfhd base_data_offset, and mfra/tfra (v0/v1) entries.  All addressed
+/// data lives in one trailing mdat (fragments address their own moof).
+pub fn mp4_rich(r: &mut Rng) -> Vec<u8> {
+    #[derive(Clone, Copy)]
+    enum T {
+        Data(usize),
+        Moof(usize),
+    }
+    struct Piece {
+        bytes: Vec<u8>,
+        ptrs: Vec<(usize, usize, T)>, // (position in bytes, width, target)
+    }
+    // data blobs
+    let n_blobs = r.usize(3, 8);
+    let blobs: Vec<Vec<u8>> = (0..n_blobs).map(|_| { let n = r.usize(12, 40); r.bytes(n) }).collect();
+    let mut blob_off = Vec::new();
+    let mut acc = 0usize;
+    for b in &blobs {
+        blob_off.push(acc);
+        acc += b.len();
+    }
+    let mut next_blob = 0usize;
+    let mut take = |r: &mut Rng| -> usize {
+        let b = next_blob % n_blobs;
+        next_blob += 1 + r.below(2) as usize;
+        b
+    };
+    /// find the position of `needle` marker and blank it
+    fn mark(v: &mut Vec<u8>, width: usize) -> usize {
+        let p = v.len();
+        v.extend(std::iter::repeat(0u8).take(width));
+        p
+    }
+    let mut pieces: Vec<Piece> = Vec::new();
+    let brand: &[u8] = if r.chance(1, 3) { b"heic\0\0\0\0heicmif1" } else { b"isom\0\0\x02\0isomiso2mp41" };
+    pieces.push(Piece { bytes: bmff_box(b"ftyp", brand), ptrs: vec![] });
+
+    // ---- moov with stco or co64 (+ optional saio)
+    {
+        let n_chunks = r.usize(1, 3);
+        let wide = r.chance(1, 2);
+        let mut ptrs: Vec<(usize, usize, T)> = Vec::new();
+        let mut mvhd = vec![0u8; 96];
+        mvhd[8..12].copy_from_slice(&1000u32.to_be_bytes());
+        mvhd[92..96].copy_from_slice(&2u32.to_be_bytes());
+        let mvhd = fullbox(b"mvhd", 0, 0, &mvhd);
+        let mut tkhd = vec![0u8; 80];
+        tkhd[8..12].copy_from_slice(&1u32.to_be_bytes());
+        let tkhd = fullbox(b"tkhd", 0, 7, &tkhd);
+        let mut mdhd = vec![0u8; 20];
+        mdhd[8..12].copy_from_slice(&1000u32.to_be_bytes());
+        let mdhd = fullbox(b"mdhd", 0, 0, &mdhd);
+        let mut hdlr = vec![0u8; 4];
+        hdlr.extend(b"vide");
+        hdlr.extend([0u8; 12]);
+        hdlr.extend(b"sim\0");
+        let hdlr = fullbox(b"hdlr", 0, 0, &hdlr);
+        let stsd = fullbox(b"stsd", 0, 0, &0u32.to_be_bytes());
+        let stts = fullbox(b"stts", 0, 0, &0u32.to_be_bytes());
+        let mut stsc = 1u32.to_be_bytes().to_vec();
+        stsc.extend(1u32.to_be_bytes());
+        stsc.extend(1u32.to_be_bytes());
+        stsc.extend(1u32.to_be_bytes());
+        let stsc = fullbox(b"stsc", 0, 0, &stsc);
+        let mut stsz = 8u32.to_be_bytes().to_vec();
+        stsz.extend((n_chunks as u32).to_be_bytes());
+        let stsz = fullbox(b"stsz", 0, 0, &stsz);
+        // offsets inside the moov box are tracked relative to the moov start
+        let mut stbl_children: Vec<(Vec<u8>, Vec<(usize, usize, T)>)> = vec![(stsd, vec![]), (stts, vec![]), (stsc, vec![]), (stsz, vec![])];
+        {
+            let w = if wide { 8 } else { 4 };
+            let mut p = (n_chunks as u32).to_be_bytes().to_vec();
+            let mut pp = Vec::new();
+            for _ in 0..n_chunks {
+                let at = mark(&mut p, w);
+                pp.push((at + 12, w, T::Data(take(r)))); // 8 header + 4 version/flags
+            }
+            stbl_children.push((fullbox(if wide { b"co64" } else { b"stco" }, 0, 0, &p), pp));
+        }
+        if r.chance(1, 2) {
+            let v1 = r.chance(1, 2);
+            let with_type = r.chance(1, 2);
+            let w = if v1 { 8 } else { 4 };
+            let mut p = Vec::new();
+            if with_type {
+                p.extend(b"cenc");
+                p.extend(0u32.to_be_bytes());
+            }
+            let n = r.usize(1, 2);
+            p.extend((n as u32).to_be_bytes());
+            let mut pp = Vec::new();
+            for _ in 0..n {
+                let at = mark(&mut p, w);
+                pp.push((at + 12, w, T::Data(take(r))));
+            }
+            stbl_children.push((fullbox(b"saio", if v1 { 1 } else { 0 }, if with_type { 1 } else { 0 }, &p), pp));
+        }
+        // assemble stbl and lift the pointer positions through the nesting
+        let mut stbl_payload = Vec::new();
+        let mut stbl_ptrs = Vec::new();
+        for (b, pp) in stbl_children {
+            let base = stbl_payload.len();
+            for (at, w, t) in pp {
+                stbl_ptrs.push((base + at, w, t));
+            }
+            stbl_payload.extend(b);
+        }
+        let stbl = bmff_box(b"stbl", &stbl_payload);
+        let minf = bmff_box(b"minf", &stbl);
+        let mdia_payload = [mdhd.clone(), hdlr.clone(), minf].concat();
+        let mdia = bmff_box(b"mdia", &mdia_payload);
+        let trak_payload = [tkhd.clone(), mdia].concat();
+        let trak = bmff_box(b"trak", &trak_payload);
+        let moov_payload = [mvhd.clone(), trak].concat();
+        let moov = bmff_box(b"moov", &moov_payload);
+        // position of the stbl payload inside moov
+        let off = 8 + mvhd.len() + 8 + tkhd.len() + 8 + mdhd.len() + hdlr.len() + 8 + 8;
+        for (at, w, t) in stbl_ptrs {
+            ptrs.push((off + at, w, t));
+        }
+        pieces.push(Piece { bytes: moov, ptrs });
+    }
+
+    // ---- top-level meta with iloc
+    if r.chance(1, 2) {
+        let version = r.below(3) as u8;
+        let offset_size = *r.pick(&[4usize, 8]);
+        let base_offset_size = *r.pick(&[0usize, 4, 8]);
+        let index_size = if version >= 1 && r.chance(1, 3) { *r.pick(&[4usize, 8]) } else { 0usize };
+        let n_items = r.usize(1, 3);
+        let mut p = vec![((offset_size as u8) << 4) | 4, ((base_offset_size as u8) << 4) | index_size as u8];
+        if version < 2 {
+            p.extend((n_items as u16).to_be_bytes());
+        } else {
+            p.extend((n_items as u32).to_be_bytes());
+        }
+        let mut pp = Vec::new();
+        for i in 0..n_items {
+            if version < 2 {
+                p.extend((i as u16 + 1).to_be_bytes());
+            } else {
+                p.extend((i as u32 + 1).to_be_bytes());
+            }
+            if version >= 1 {
+                p.extend(0u16.to_be_bytes()); // construction method 0: file offsets
+            }
+            p.extend(0u16.to_be_bytes()); // data reference index
+            // base carries the address (extent offset 0), or base is 0 / absent and the extent does
+            let base_addresses = base_offset_size > 0 && r.chance(1, 2);
+            let blob = take(r);
+            if base_offset_size > 0 {
+                let at = mark(&mut p, base_offset_size);
+                if base_addresses {
+                    pp.push((at + 12, base_offset_size, T::Data(blob)));
+                }
+            }
+            p.extend(1u16.to_be_bytes()); // extent count
+            p.extend(std::iter::repeat(0u8).take(index_size.saturating_sub(1)));
+            if index_size > 0 {
+                p.push(1); // extent index
+            }
+            let at = mark(&mut p, offset_size);
+            if !base_addresses {
+                pp.push((at + 12, offset_size, T::Data(blob)));
+            }
+            p.extend(8u32.to_be_bytes()); // extent length
+        }
+        let iloc = fullbox(b"iloc", version, 0, &p);
+        let mut hdlr = vec![0u8; 4];
+        hdlr.extend(b"pict");
+        hdlr.extend([0u8; 12]);
+        hdlr.push(0);
+        let hdlr = fullbox(b"hdlr", 0, 0, &hdlr);
+        let meta = fullbox(b"meta", 0, 0, &[hdlr.clone(), iloc].concat());
+        let off = 12 + hdlr.len();
+        pieces.push(Piece { bytes: meta, ptrs: pp.into_iter().map(|(at, w, t)| (off + at, w, t)).collect() });
+    }
+
+    // ---- movie fragments
+    let n_frag = if r.chance(1, 2) { r.usize(1, 2) } else { 0 };
+    let mut moof_piece_idx = Vec::new();
+    for f in 0..n_frag {
+        let mfhd = fullbox(b"mfhd", 0, 0, &(f as u32 + 1).to_be_bytes());
+        let with_base = r.chance(2, 3);
+        let mut p = 1u32.to_be_bytes().to_vec(); // track id 1
+        let mut pp = Vec::new();
+        if with_base {
+            let at = mark(&mut p, 8);
+            pp.push((at + 12, 8, T::Moof(f)));
+        }
+        let tfhd = fullbox(b"tfhd", 0, if with_base { 1 } else { 0 }, &p);
+        let trun = fullbox(b"trun", 0, 0, &0u32.to_be_bytes());
+        let traf = bmff_box(b"traf", &[tfhd, trun].concat());
+        let moof = bmff_box(b"moof", &[mfhd.clone(), traf].concat());
+        let off = 8 + mfhd.len() + 8;
+        moof_piece_idx.push(pieces.len());
+        pieces.push(Piece { bytes: moof, ptrs: pp.into_iter().map(|(at, w, t)| (off + at, w, t)).collect() });
+        let n = r.usize(4, 24);
+        pieces.push(Piece { bytes: bmff_box(b"mdat", &r.bytes(n)), ptrs: vec![] });
+    }
+
+    // ---- the mdat holding the blobs
+    let large = r.chance(1, 4);
+    let data_piece = pieces.len();
+    let payload: Vec<u8> = blobs.concat();
+    let mdat = if large {
+        let mut m = 1u32.to_be_bytes().to_vec();
+        m.extend(b"mdat");
+        m.extend(((payload.len() + 16) as u64).to_be_bytes());
+        m.extend(&payload);
+        m
+    } else {
+        bmff_box(b"mdat", &payload)
+    };
+    pieces.push(Piece { bytes: mdat, ptrs: vec![] });
+
+    // ---- mfra / tfra (one entry per fragment; the SDK maps a track to one moof, so one
+    // fragment per track is what tfra can faithfully describe)
+    if n_frag == 1 && r.chance(2, 3) {
+        let v1 = r.chance(1, 2);
+        let mut p = 1u32.to_be_bytes().to_vec(); // track id
+        let sizes = r.below(64) as u32; // length_size_of traf/trun/sample num
+        p.extend(sizes.to_be_bytes());
+        p.extend(1u32.to_be_bytes()); // entries
+        let mut pp = Vec::new();
+        if v1 {
+            p.extend(0u64.to_be_bytes());
+            let at = mark(&mut p, 8);
+            pp.push((at + 12, 8, T::Moof(0)));
+        } else {
+            p.extend(0u32.to_be_bytes());
+            let at = mark(&mut p, 4);
+            pp.push((at + 12, 4, T::Moof(0)));
+        }
+        for sh in [4u32, 2, 0] {
+            let n = ((sizes >> sh) & 3) as usize + 1;
+            p.extend(std::iter::repeat(1u8).take(n));
+        }
+        let tfra = fullbox(b"tfra", if v1 { 1 } else { 0 }, 0, &p);
+        let mut mfro = Vec::new();
+        mfro.extend(((8 + tfra.len() + 16) as u32).to_be_bytes());
+        let mfro = fullbox(b"mfro", 0, 0, &mfro);
+        let mfra = bmff_box(b"mfra", &[tfra, mfro].concat());
+        pieces.push(Piece { bytes: mfra, ptrs: pp.into_iter().map(|(at, w, t)| (8 + at, w, t)).collect() });
+    }
+
+    // ---- lay out and patch
+    let mut starts = Vec::new();
+    let mut pos = 0usize;
+    for p in &pieces {
+        starts.push(pos);
+        pos += p.bytes.len();
+    }
+    let data_start = starts[data_piece] + if large { 16 } else { 8 };
+    let mut out = Vec::with_capacity(pos);
+    for (i, p) in pieces.iter().enumerate() {
+        let mut b = p.bytes.clone();
+        for (at, w, t) in &p.ptrs {
+            let target = match t {
+                T::Data(k) => data_start + blob_off[*k],
+                T::Moof(f) => starts[moof_piece_idx[*f]],
+            } as u64;
+            if *w == 4 {
+                b[*at..*at + 4].copy_from_slice(&(target as u32).to_be_bytes());
+            } else {
+                b[*at..*at + 8].copy_from_slice(&target.to_be_bytes());
+            }
+        }
+        let _ = i;
+        out.extend(b);
+    }
+    out
+}
+
 /// MP4 (8-byte mdat header) whose mdat box is `mdat_size` bytes long.
 pub fn mp4_with_mdat_size(r: &mut Rng, mdat_size: usize) -> Vec<u8> {
     let mut probe = r.clone();
